@@ -180,6 +180,11 @@ def history(ctx, n, steps, reordering):
         if bad:
             ctx.violation('C17:not-canonical', f'after step {step}: {bad[:3]}', M.case())
             break
+        if kind is not None and kind != 'syntax-error':
+            M.op('assert_consistent')
+            if not s.ok():
+                ctx.violation('C17:not-canonical', f'after step {step}: BDD.assert_consistent() fails', M.case())
+                break
         if sorted(M.b.vars.values()) != list(range(len(M.b.vars))):
             ctx.violation('C17:order-not-bijection', f'{M.b.vars}', M.case())
             break
